@@ -259,6 +259,7 @@ func runC18Case(cc c18Case, modelLine *string, modelWant *string) (string, strin
 		closed := false
 		pendingR := 0 // bytes sent by the peer and not yet returned by a Read
 		var lastRead int32
+		var lastData, sentR, gotR []byte // the byte stream: what the peer sent, what the Reads returned
 		var evs, results []string
 		past := func() time.Time { return time.Now().Add(-time.Duration(1+rng.Intn(5000)) * time.Millisecond) }
 		setDL := func(sd byte, t time.Time) {
@@ -295,11 +296,15 @@ func runC18Case(cc c18Case, modelLine *string, modelWant *string) (string, strin
 				if !blocked && pendingR == 0 {
 					// 12-byte messages read with an 8-byte buffer: between two reads a message is often partly
 					// consumed, so deadlines are also set (and expire) in the middle of a message
-					peer.writeFrame(RawFrame{Fin: true, Op: cc.MsgType, Payload: []byte("0123456789ab")})
+					msg := []byte(fmt.Sprintf("%04d456789ab", len(sentR)/12%10000)) // 12 bytes
+					peer.writeFrame(RawFrame{Fin: true, Op: cc.MsgType, Payload: msg})
+					sentR = append(sentR, msg...)
 					pendingR += 12
 				}
 				go func() {
-					n, err := nc.Read(make([]byte, 8))
+					buf := make([]byte, 8)
+					n, err := nc.Read(buf)
+					lastData = buf[:n]
 					atomic.StoreInt32(&lastRead, int32(n))
 					done <- err
 				}()
@@ -344,6 +349,10 @@ func runC18Case(cc c18Case, modelLine *string, modelWant *string) (string, strin
 					got = class(err)
 					if sd == 'r' && err == nil {
 						pendingR -= int(atomic.LoadInt32(&lastRead))
+						gotR = append(gotR, lastData...)
+						if !bytes.HasPrefix(sentR, gotR) {
+							return "stream-bytes-differ", fmt.Sprintf("%s: after %v the Reads returned %q so far, the peer sent %q: not a prefix (a deadline that expired between two Reads of one message lost the position in the stream)", desc, evs, gotR, sentR)
+						}
 					} else if sd == 'r' && atomic.LoadInt32(&lastRead) != 0 {
 						return "read-returns-data-with-error", fmt.Sprintf("%s: after %v a read returned %d bytes together with %v", desc, evs, atomic.LoadInt32(&lastRead), err)
 					}
@@ -539,6 +548,13 @@ func runC18(ctx *runCtx) {
 	}
 	for i := 0; i < n/3; i++ {
 		cases = append(cases, c18Case{Kind: "deadline-program", Client: rng.Intn(2) == 0, MsgType: 1 + rng.Intn(2), Prog: genDeadlineProg(rng), Seed: ctx.seed + int64(i)})
+	}
+	// a read deadline that expires idle between two Reads of one message (12-byte messages, 8-byte buffer), is seen
+	// by a Read, is reset, and reading continues: the stream goes on where it was
+	for i, prog := range [][]string{{"cr", "pr", "cr", "zr", "cr", "cr", "cr"}, {"cr", "px", "cr", "cw", "zx", "cr", "cw", "cr"}, {"cr", "cr", "cr", "pr", "cr", "fr", "cr", "cr"}} {
+		for _, client := range []bool{true, false} {
+			cases = append(cases, c18Case{Kind: "deadline-program", Client: client, MsgType: 1 + i%2, Prog: prog, Seed: ctx.seed})
+		}
 	}
 	for _, client := range []bool{true, false} {
 		for mt := 1; mt <= 2; mt++ {
